@@ -120,6 +120,56 @@ fn shape(v: &Val) -> Vec<Val> {
     }
 }
 
+/// mode 6: the message argument's Display impl itself encodes a record (with run-time
+/// arguments) through a `{m}` pattern on the same thread before it writes its own text -
+/// what happens when a value logs, or is rendered through a log4rs encoder, while it is
+/// being formatted.  Both encodings must be unaffected by each other.
+struct Reentrant<'a> {
+    text: &'a str,
+    on: bool,
+}
+
+impl std::fmt::Display for Reentrant<'_> {
+    fn fmt(&self, f: &mut std::fmt::Formatter) -> std::fmt::Result {
+        if !self.on {
+            return f.write_str(self.text);
+        }
+        let ok = std::panic::catch_unwind(|| {
+            let enc = PatternEncoder::new("<{m}|{m:>9}|{m:.4}>");
+            let mut cap = Cap { ev: vec![], cur: vec![] };
+            let n = 41;
+            let r = enc.encode(
+                &mut cap,
+                &log::Record::builder().level(log::Level::Info).args(format_args!("in{}er", n + 1)).build(),
+            );
+            cap.flush_text();
+            let mut text = String::new();
+            for e in &cap.ev {
+                if let Val::L(cs) = e {
+                    for c in cs {
+                        text.push(char::from_u32(c.n() as u32).unwrap_or('?'));
+                    }
+                }
+            }
+            if r.is_ok() && text == "<in42er|   in42er|in42>" {
+                None
+            } else {
+                Some(format!("{:?}/{}", r.is_ok(), text))
+            }
+        });
+        match ok {
+            Ok(None) => {}
+            Ok(Some(t)) => {
+                f.write_str("<<NESTED-ENCODE-WRONG:")?;
+                f.write_str(&t)?;
+                f.write_str(">>")?;
+            }
+            Err(_) => f.write_str("<<NESTED-ENCODE-PANICKED>>")?,
+        }
+        f.write_str(self.text)
+    }
+}
+
 fn body(case: &Val) -> Val {
     let c = case.l();
     let mode = c[0].n();
@@ -178,7 +228,7 @@ fn body(case: &Val) -> Val {
                     .module_path(module.as_deref())
                     .file(file.as_deref())
                     .line(line)
-                    .args(format_args!("{}", msg))
+                    .args(format_args!("{}", Reentrant { text: &msg, on: mode == 6 }))
                     .build(),
             );
             cap.flush_text();
